@@ -250,6 +250,13 @@ func serveTCPSocket(conn *net.TCPConn, addr *net.TCPAddr, inbound chan<- Service
 			return
 		}
 
+		// A frame is at least as long as its header; anything shorter cannot be skipped
+		// (a length of 0 would be peeked again forever), so the stream is unusable.
+		if totalLen < 6 {
+			util.Log(conn, "Invalid total length: %d", totalLen)
+			return
+		}
+
 		buffer := make([]byte, totalLen)
 		len, err := io.ReadFull(connBuffer, buffer)
 		if err != nil {
